@@ -23,7 +23,7 @@ import (
 const (
 	sigRollback = "index-rowloc-stale-after-rollback"
 	sigPKOrder  = "ordered-scan-unordered:primary-key-index:multi-partition-table"
-	sigUnbuilt  = "failed-unique-prefix-index-build-in-txn-leaves-empty-index"
+	sigUnbuilt  = "failed-unique-prefix-index-build-leaves-empty-index"
 )
 
 type applied struct {
@@ -356,10 +356,11 @@ func (hc *histCase) check(st g8blib.Step, stmtFailed bool) bool {
 	switch {
 	case readErr:
 		r.Violation("index-read-error:"+d.Probe.Shape+":"+d.Probe.Kind, w)
-	case stmtFailed && strings.HasPrefix(st.Kind, "create-index-uniq") && strings.Contains(st.Kind, "prefix") && missingOnly && hc.txnOpenBefore:
-		// Known class 2: inside an explicit transaction a CREATE UNIQUE INDEX over a prefix column fails in the
-		// index build (duplicate prefixes pass the whole-value pre-check) and leaves the index registered
-		// with empty storage: reads planned through it miss rows.
+	case stmtFailed && strings.HasPrefix(st.Kind, "create-index-uniq") && strings.Contains(st.Kind, "prefix") && missingOnly:
+		// Known class 2: a CREATE UNIQUE INDEX over a prefix column fails in the index build (duplicate
+		// prefixes pass the whole-value pre-check) and leaves the index registered with empty storage —
+		// inside an explicit transaction always, with autocommit when the table already has a secondary
+		// index (the indexes map is shared between TableData copies): reads planned through it miss rows.
 		r.Violation(sigUnbuilt, w)
 	case st.Kind == "rollback":
 		// F24 (fixed in /repo by "TableData.copy copies secondary index rows"): kept as its own class
